@@ -212,7 +212,8 @@ def run_history(res, exe, rng, first):
                 if m.mode not in (PREOP, OP):
                     continue
                 cur = m.cobid
-                v = rng.choice([cur ^ 0x40000000, cur ^ 0x40000000, (cur & 0x40000000) | rng.choice([0x80, 0x100, 0x7F]), cur])
+                v = rng.choice([cur ^ 0x40000000, cur ^ 0x40000000, (cur & 0x40000000) | rng.choice([0x80, 0x100, 0x7F]), cur,
+                                (cur ^ 0x40000000) & 0x40000000 | rng.choice([0x80, 0x100, 0x7F, 0x81])])      # toggle production AND change the CAN-ID in one write
                 script.append("write 1005 = %x (was %x)" % (v, cur))
                 want = m.write_1005(v, sim.tick)
                 code, evs = S.sdo_write(sim, nid, 0x1005, 0, v, 4)
@@ -231,6 +232,25 @@ def run_history(res, exe, rng, first):
                 v2, _ = S.sdo_read(sim, nid, 0x1005, 0)
                 if v2 != m.cobid:
                     fail("readback/1005", "1005h reads %r, reference %x" % (v2, m.cobid)); return
+                # the identifier the node listens to is the stored one - also after a refused write
+                for cid in (m.sid(), v & 0x7FF):
+                    if m.allowed() and cid != 0x200 + nid:
+                        evs = sim.rx(cid, b"")
+                        is_sync = cid == m.sid()
+                        if is_sync:
+                            cons += 1
+                            if m.mode == OP:
+                                m.tsync += 1
+                                if m.tsync == ttype:
+                                    m.tsync = 0
+                                if m.rpdo_pending is not None:
+                                    rpdo_val = m.rpdo_pending
+                                    m.rpdo_pending = None
+                        ncan = len(S.cbs(evs, "canrx"))
+                        if is_sync == bool(ncan):
+                            fail("consume/after-write/%s" % ("refused" if code is not None else "accepted"),
+                                 "after the write of %x to 1005h (%s) frame %x is %s, stored SYNC identifier is %x" % (
+                                     v, "refused" if code is not None else "accepted", cid, "handed to the application" if ncan else "consumed as SYNC", m.sid())); return
             elif x < 0.72:
                 if m.mode not in (PREOP, OP):
                     continue
